@@ -25,8 +25,8 @@ import (
 // (transport errors, cut bodies, redirects), the clock, the callers' contexts.
 
 const (
-	capBackoff = 128 * time.Second // the exponential cap named by the property
-	capJitter  = 250 * time.Millisecond
+	capBackoff     = 128 * time.Second // the exponential cap named by the property
+	capJitter      = 250 * time.Millisecond
 	maxRetryAfterS = int64(1) << 31 // stated bound of the check
 	// deadlines sit off the millisecond grid on which all back-off timers fall, so that a
 	// context deadline and a back-off timer never become ready in the same fake instant
@@ -399,14 +399,15 @@ func (w *c13World) answer(p *kernel.Parked, o *served, ts uint64) {
 	default:
 		sb.phase, sb.want = phRetErr, o
 	}
-	if !(o.Status == 408 && !o.NetErr) && sb.phase != phRetOK {
-		w.F = now
+	plain408 := !o.NetErr && o.Status == 408 && !conv && o.CutAt < 0
+	if (sb.phase == phRetry || sb.phase == phEither) && !plain408 {
+		w.F = now // the client may count this outcome as a failure and start (or keep) a back-off
 	}
 	c.Out = o
 	s.Logf("server -> %s#%d %s: %s  [model %s E=%v L=%v J=%v]", sb.Party, c.Idx, o.Kind, o, sb.phase, sb.E, sb.L, w.J)
 	if !o.Honest {
 		s.Fault(kindFamily(o.Kind))
-		if o.RA != "" || o.Status == 429 || o.Status == 503 {
+		if o.CutAt < 0 && (o.Status == 429 || o.Status == 503) {
 			s.Probe("ra." + raForm(o.Kind))
 		}
 	}
@@ -541,10 +542,6 @@ func (w *c13World) AfterStep(s *kernel.Sim) {
 			aborted bool
 			abortT  time.Duration
 		}
-		snaps := make([]snap, len(calls))
-		for i, c := range calls {
-			snaps[i] = snap{c.Aborted, c.AbortT}
-		}
 		done, retT, err, sct, body, status, pan := sb.Done, sb.RetT, sb.Err, sb.SCT, sb.Body, sb.Status, sb.Panic
 		// a call seen earlier may have been aborted since
 		var lastAborted *snap
@@ -637,10 +634,6 @@ func (w *c13World) AfterStep(s *kernel.Sim) {
 			sb.phase = phDone
 			continue
 		}
-		if sct != nil || body != nil || status != 0 {
-			s.Violate("c13.partial-result", fmt.Sprintf("api=%d", sb.API), "%s: error %v together with a result", sb.Party, err)
-			return
-		}
 		switch sb.phase {
 		case phRetOK:
 			s.Violate("c13.missed-success", fmt.Sprintf("api=%d", sb.API), "%s: parsable 200 delivered at %v (first one), call returned error %v", sb.Party, sb.T, err)
@@ -691,6 +684,9 @@ func lateKey(kind string) string {
 	if kind == "408" {
 		return "after-408"
 	}
+	if len(kind) > 10 && kind[:10] == "converted:" {
+		return "after-converted"
+	}
 	return "after-" + kindFamily(kind)
 }
 
@@ -719,6 +715,9 @@ func (w *c13World) Shutdown(s *kernel.Sim) {
 			sb.cancel()
 		}
 	}
+	// a client that (wrongly) sleeps through a cancelled context must still wake up before the
+	// bubble ends: run the clock past the largest admissible Retry-After
+	time.Sleep(time.Duration(maxRetryAfterS)*time.Second + time.Hour)
 }
 
 func (w *c13World) StateKey() string {
